@@ -615,21 +615,23 @@ def main(run):
 
 
 def replay(run, path):
-    j = json.load(open(path))
-    print(json.dumps(j, indent=1, ensure_ascii=False)[:6000])
-    c = (j.get("replay") or {}).get("case")
-    if not c:
-        return 0
+    """the stored value case / report case through check_cases (harness + c17_val_case / c17_rep_case)"""
+    j, rp, rc = replay_begin(run, path)
+    if rc is not None:
+        return rc
+    c = rp.get("case")
+    if not (isinstance(c, dict) and c.get("kind") in ("val", "rep")):
+        return replay_print(j)
+    print(j.get("what"))
+    print(json.dumps(c, indent=1, ensure_ascii=False)[:4000])
     harness_build()
     if c["kind"] == "val":
         c["m"] = int(c["m"])
     c.setdefault("tag", "replay")
-    ok, log = coq_make(["corr/C17_corr.vo"])
-    if not ok:
-        raise Infra("coq build failed:\n" + log[-2000:])
-    check_cases(run, [c] if c["kind"] == "val" else [], [c] if c["kind"] == "rep" else [])
-    for what, rep, found in run.violations:
-        print("REPRODUCED: %s%s" % (what, "" if found else " (no failing input: correspondence only)"))
-    if not run.violations:
-        print("not reproduced: the case passes now")
-    return 1 if run.violations else 0
+    corr_build("C17")
+    st, _ = check_cases(run, [c] if c["kind"] == "val" else [], [c] if c["kind"] == "rep" else [])
+    only = None
+    if c["kind"] == "rep" and rp.get("report"):
+        only = lambda v: v[1].get("report") in (None, rp["report"])          # the stored report of the three (panics carry none)
+    return replay_verdict(run, path, j, "the stored %s case is rounded and printed as specified and the model agrees (stages %s)"
+                          % ({"val": "value", "rep": "report"}[c["kind"]], st.get("stages")), only=only)
